@@ -86,6 +86,24 @@ theorem generated_getDsu_total (pids : List Int)
   rw [this, hget]
   rfl
 
+/-! ## `has_cyclic`, as translated -/
+
+/-- the translated `has_cyclic` equals the model on every valid table, hence (by `hasCyclic_spec`) answers `True` exactly when
+some row joins two nodes that the earlier rows already connect, and always answers -/
+theorem generated_hasCyclic_spec (ids pids : List Int) (hv : ValidTable ids pids) (F : Nat) :
+    has_cyclic (ids.length + 1 + F) (ids, pids) = hasCyclic ids pids ∧
+    (has_cyclic (ids.length + 1 + F) (ids, pids) = some true ↔
+      ∃ k, ∃ h1 : k < ids.length, ∃ h2 : k < pids.length, pids[k] ≠ -1 ∧
+        Conn (rowEdges (ids.take k) (pids.take k)) ids[k].toNat pids[k].toNat) ∧
+    (has_cyclic (ids.length + 1 + F) (ids, pids) = some true ∨ has_cyclic (ids.length + 1 + F) (ids, pids) = some false) := by
+  have e := RefineCheckers.hasCyclic_refines ids pids hv.1 hv.2.1 hv.2.2 F
+  have h := hasCyclic_spec ids pids hv
+  rw [e]
+  exact ⟨rfl, h.1, h.2⟩
+
+example : has_cyclic 9 ([0, 1, 2, 3], [-1, 0, 3, 2]) = some true ∧ has_cyclic 9 ([0, 1, 2, 3], [-1, 0, 1, 1]) = some false := by
+  decide +kernel
+
 /-- non-vacuity: the translated `get_dsu` on a table with a cycle and a separate tree (kernel-evaluated) -/
 example : get_dsu 40 [0, 1, 2, 3, 4, 5] [1, 2, 0, -1, 3, 3] = some [0, 0, 0, 3, 3, 3] ∨
           get_dsu 40 [0, 1, 2, 3, 4, 5] [1, 2, 0, -1, 3, 3] = some [1, 1, 1, 3, 3, 3] ∨
